@@ -72,7 +72,7 @@ impl Timestamp {
         let ans = match format {
             TimestampFormat::DateTime => time::OffsetDateTime::parse(s, &Rfc3339)?,
             TimestampFormat::HttpDate => time::PrimitiveDateTime::parse(s, RFC1123)?.assume_utc(),
-            TimestampFormat::EpochSeconds => match s.split_once('.') {
+            TimestampFormat::EpochSeconds => match s.strip_prefix('-').unwrap_or(s).split_once('.') {
                 Some((secs, frac)) => {
                     let secs: i64 = secs.parse::<u64>()?.try_into().map_err(|_| ParseTimestampError::Overflow)?;
                     let val: u32 = frac.parse::<u32>()?;
@@ -89,10 +89,14 @@ impl Timestamp {
                         _ => return Err(ParseTimestampError::Overflow),
                     };
                     let nanos = i128::from(secs) * 1_000_000_000 + i128::from(val * mul);
+                    // instants before the epoch are written with a leading minus sign
+                    let nanos = if s.starts_with('-') { -nanos } else { nanos };
                     time::OffsetDateTime::from_unix_timestamp_nanos(nanos)?
                 }
                 None => {
-                    let secs: i64 = s.parse::<u64>()?.try_into().map_err(|_| ParseTimestampError::Overflow)?;
+                    let digits = s.strip_prefix('-').unwrap_or(s);
+                    let secs: i64 = digits.parse::<u64>()?.try_into().map_err(|_| ParseTimestampError::Overflow)?;
+                    let secs = if s.starts_with('-') { -secs } else { secs };
                     time::OffsetDateTime::from_unix_timestamp(secs)?
                 }
             },
